@@ -78,9 +78,17 @@ func clusterState(rev uint64) state.ClusterState {
 // TestMain: with VERIF_C19_CHILD set this process is the traced child.  It runs the real
 // Store.Save for consecutive revisions on one OS thread (so that strace's per-thread
 // injection counters are deterministic) and announces each Save on stdout (a traced write).
+func init() {
+	// init functions run on the main thread: locking here keeps the main goroutine (and with
+	// it every system call of Save in the child) on the thread whose calls strace counted
+	// from the start of the process
+	if os.Getenv("VERIF_C19_CHILD") != "" {
+		runtime.LockOSThread()
+	}
+}
+
 func TestMain(m *testing.M) {
 	if path := os.Getenv("VERIF_C19_CHILD"); path != "" {
-		runtime.LockOSThread()
 		from, _ := strconv.Atoi(os.Getenv("VERIF_C19_FROM"))
 		n, _ := strconv.Atoi(os.Getenv("VERIF_C19_SAVES"))
 		st := statefile.New(path)
@@ -204,15 +212,19 @@ type mapper struct {
 	expect    int64
 }
 
-func (m *mapper) nameOf(path string) (string, bool) {
+// nameOf maps a path to the specification's name for it: the main file, or "tN" for the
+// N-th other file.  A file counts when it lives in the state directory or (create = true)
+// when it is being created for writing anywhere else (a temp file kept in another directory
+// and renamed into place); the model has one directory, which is exact for the main name.
+func (m *mapper) nameOf(path string, create bool) (string, bool) {
 	if path == m.main {
 		return "main", true
 	}
-	if filepath.Dir(path) != m.dir {
-		return "", false
-	}
 	if n, ok := m.names[path]; ok {
 		return n, true
+	}
+	if filepath.Dir(path) != m.dir && !create {
+		return "", false
 	}
 	n := fmt.Sprintf("t%d", len(m.names)+1)
 	m.names[path] = n
@@ -288,14 +300,14 @@ func mapCalls(calls []sysc, dir string, expectLen func(rev int) int64) ([]step, 
 				m.dirfds[fd] = true
 				continue
 			}
-			name, ok := m.nameOf(path)
-			if !ok {
-				continue
-			}
 			flags := c.args
 			writes := strings.Contains(flags, "O_WRONLY") || strings.Contains(flags, "O_RDWR")
 			if !writes {
 				continue // a reader (Load)
+			}
+			name, ok := m.nameOf(path, strings.Contains(flags, "O_CREAT") && strings.Contains(flags, "O_EXCL") && strings.Contains(filepath.Base(path), mainName))
+			if !ok {
+				continue
 			}
 			h := m.freeHandle()
 			m.handles[fd] = h
@@ -328,8 +340,8 @@ func mapCalls(calls []sysc, dir string, expectLen func(rev int) int64) ([]step, 
 			if failed || len(c.strs) < 2 {
 				continue
 			}
-			a, okA := m.nameOf(c.strs[0])
-			b, okB := m.nameOf(c.strs[1])
+			a, okA := m.nameOf(c.strs[0], false)
+			b, okB := m.nameOf(c.strs[1], false)
 			if okA && okB {
 				add(c, nth, kit.Ev("Rename", "from", a, "to", b, "res", map[string]any{"ok": true}))
 			}
@@ -337,7 +349,7 @@ func mapCalls(calls []sysc, dir string, expectLen func(rev int) int64) ([]step, 
 			if failed || len(c.strs) < 1 {
 				continue
 			}
-			if a, ok := m.nameOf(c.strs[0]); ok {
+			if a, ok := m.nameOf(c.strs[0], false); ok {
 				add(c, nth, kit.Ev("Unlink", "name", a, "res", map[string]any{"ok": true}))
 			}
 		}
@@ -530,42 +542,65 @@ func TestVerifStateFile(t *testing.T) {
 		if killViolations >= 3 {
 			break
 		}
-		ndir++
-		kdir, kpath, err := freshDir(root, ndir)
-		if err != nil {
-			rep.Infra("%v", err)
-			return
-		}
-		klog := filepath.Join(root, fmt.Sprintf("kill%d.strace", i))
-		inject := fmt.Sprintf("%s:signal=SIGKILL:when=%d", s.call.name, s.nth)
-		killed, err := runChild(kpath, klog, baseRev+1, saves, inject)
-		if err != nil {
-			rep.Infra("kill run %d (%s): %v", i, inject, err)
-			return
-		}
-		if !killed {
-			rep.Infra("kill run %d (%s): the child was not killed", i, inject)
-			return
-		}
-		// the kill must have happened where the observation run says this call is
-		kcalls, err := parseStrace(klog)
-		if err != nil {
-			rep.Infra("kill run %d: %v", i, err)
-			return
-		}
-		ksteps, err := mapCalls(kcalls, kdir, expectLen)
-		if err != nil {
-			rep.Infra("kill run %d: map system calls: %v", i, err)
-			return
-		}
-		done := 0
-		for _, ks := range ksteps {
-			if ks.call.ret != "" {
-				done++
+		var kdir, kpath string
+		// strace counts the calls of one name per thread from the start of the process; the
+		// few calls of the Go runtime before main are not exactly the same in every run, so the
+		// count of the observation run is tried first and its neighbours after it, until the
+		// kill lands where exactly i calls on the state file have completed.
+		var (
+			inject string
+			landed bool
+			tried  []string
+		)
+		for _, delta := range []int{0, 1, -1, 2, -2, 3, -3} {
+			nth := s.nth + delta
+			if nth < 1 {
+				continue
+			}
+			ndir++
+			var err error
+			kdir, kpath, err = freshDir(root, ndir)
+			if err != nil {
+				rep.Infra("%v", err)
+				return
+			}
+			klog := filepath.Join(root, fmt.Sprintf("kill%d_%d.strace", i, nth))
+			inject = fmt.Sprintf("%s:signal=SIGKILL:when=%d", s.call.name, nth)
+			killed, err := runChild(kpath, klog, baseRev+1, saves, inject)
+			if err != nil {
+				rep.Infra("kill run %d (%s): %v", i, inject, err)
+				return
+			}
+			done := -1
+			if killed {
+				kcalls, err := parseStrace(klog)
+				if err != nil {
+					rep.Infra("kill run %d: %v", i, err)
+					return
+				}
+				ksteps, err := mapCalls(kcalls, kdir, expectLen)
+				if err != nil {
+					rep.Infra("kill run %d: map system calls: %v", i, err)
+					return
+				}
+				done = 0
+				for _, ks := range ksteps {
+					if ks.call.ret != "" {
+						done++
+					}
+				}
+			}
+			tried = append(tried, fmt.Sprintf("%s: killed=%v completed=%d", inject, killed, done))
+			if killed && done == i {
+				landed = true
+				if delta != 0 {
+					rep.AddExtra("kill_injection_count_adjusted", 1)
+				}
+				break
 			}
 		}
-		if done != i {
-			rep.Infra("kill run %d (%s): %d calls on the state file completed before the kill, expected %d", i, inject, done, i)
+		if !landed {
+			rep.Infra("kill point %d: no injection killed the child after exactly %d calls on the state file (%s)", i, i, strings.Join(tried, "; "))
 			return
 		}
 		rep.Replayed(1)
